@@ -109,12 +109,53 @@ func genLine(c *Ctx, n int, multibyteAt int) string {
 func init() {
 	register("C18", "cases: texts assembled from lines of length {0,1,2,996..1001,1994..1998,65535..65537, up to 200000} with LF/CRLF/mixed/no final newline, empty lines, lone CR, 2-byte characters at every offset 990..1000 of a line and inside long lines, plus a malformed stream (non-Latin-1 runes, invalid UTF-8) for correspondence only. Non-trivial: a line longer than 998 bytes, a multi-byte character within 4 bytes of a wrap position, or a line longer than 64 KiB; distinct by case line.", func(c *Ctx) {
 		var cases []Case
+		// earlier messages are kept and re-examined after later SetBody calls (a stored body must not alias
+		// a buffer that the next call reuses)
+		type kept struct {
+			m     *fbb.Message
+			body  []byte
+			class string
+		}
+		var keep []kept
+		nSet := 0
 		add := func(s, class string, nontriv bool) {
 			m := fbb.NewMessage(fbb.Private, "LA5NTA")
-			err := m.SetBody(s)
+			var err error
+			nSet++
+			setter := "SetBody"
+			switch {
+			case nSet%4 != 0:
+				err = m.SetBody(s)
+			default:
+				// the other public setter; the announced charset of the message stays the default one
+				cs := []string{"UTF-8", "ISO-8859-1", "utf-8", "us-ascii", "windows-1252", ""}[(nSet/4)%6]
+				setter = "SetBodyWithCharset(" + cs + ")"
+				err = m.SetBodyWithCharset(cs, s)
+			}
 			body, berr := fbb.StringToBody(s, fbb.DefaultCharset)
 			if err != nil || berr != nil {
-				c.Violate("C18:error", fmt.Sprintf("SetBody/StringToBody returned an error: %v %v", err, berr), map[string]interface{}{"input_hex": trunc(hx([]byte(s)), 4000)})
+				c.Violate("C18:error", fmt.Sprintf("%s/StringToBody returned an error: %v %v", setter, err, berr), map[string]interface{}{"input_hex": trunc(hx([]byte(s)), 4000)})
+			}
+			stored := append([]byte(nil), m.VerifBodyBytes()...)
+			rep := map[string]interface{}{"class": class, "setter": setter, "input_len": len(s), "input_hex": trunc(hx([]byte(s)), 4000)}
+			if _, representable := latin1Of(s); representable && err == nil {
+				if !bytes.Equal(stored, body) {
+					c.Violate("C18:stored-differs", fmt.Sprintf("the body %s stored (%d bytes) is not what StringToBody returns for the text (%d bytes)", setter, len(stored), len(body)), rep)
+				}
+				if got, gerr := m.Body(); gerr != nil || !bytes.Equal(stripCRLF([]byte(got)), stripCRLF([]byte(s))) {
+					c.Violate("C18:text-not-preserved:read-back", fmt.Sprintf("Body() after %s does not give the text back (err %v)", setter, gerr), rep)
+				}
+			}
+			for _, k := range keep {
+				if !bytes.Equal(k.m.VerifBodyBytes(), k.body) {
+					c.Violate("C18:stored-body-changed-later", fmt.Sprintf("the stored body of an EARLIER message (%s) changed when %s was called on another message", k.class, setter), rep)
+				}
+			}
+			if len(stored) > 0 && len(stored) < 5000 {
+				keep = append(keep, kept{m, stored, class})
+				if len(keep) > 6 {
+					keep = keep[1:]
+				}
 			}
 			bodyOracle(c, s, body, m.Header.Get("Body"), m.BodySize(), class)
 			cases = append(cases, Case{Line: "s2b " + hs(s), Impl: hx(body), Desc: fmt.Sprintf("StringToBody(%s; %s)", class, describeText(s)), Class: class, Nontrivial: nontriv})
